@@ -55,6 +55,72 @@ def findContaining (mnts : List KMnt) (path : Bytes) : Option KMnt :=
 def topmostAt (mnts : List KMnt) (mp : Bytes) : Option KMnt :=
   mnts.reverse.find? (·.mp == mp)
 
+/-! ### path resolution through the mount tree
+
+  What the kernel does when it looks a path up: it starts on the root mount and walks the
+  path; whenever it stands on the root of a mount it first goes up through whatever is mounted
+  on that root ("stacked"), and on the way down it enters the first mountpoint of the current
+  mount that lies on the path.  A mount below a mount that was stacked later on one of its
+  ancestors is never reached: it is hidden (umount(2) answers EINVAL for its mountpoint).
+  `findContaining` / `topmostAt` above are the flat readings of the table ("longest mountpoint
+  containing the path", "last entry with this mountpoint"); they coincide with the resolution
+  on tables without hidden mounts (`Lemmas/KernelResolve.lean`) and remain what a reader of
+  /proc/self/mountinfo such as layercake computes. -/
+
+/-- `m` hangs below no other entry of the table -/
+def isRootIn (mnts : List KMnt) (m : KMnt) : Bool :=
+  !(mnts.any fun x => x.id == m.parent && x.id != m.id)
+
+/-- where the walk starts: the root mount containing the path (a namespace has one root; should
+    a table have several, the longest mountpoint, the last among equals) -/
+def startOf (mnts : List KMnt) (p : Bytes) : Option KMnt :=
+  findContaining (mnts.filter (isRootIn mnts)) p
+
+/-- one step of the walk from mount `c` towards `p`: a mount stacked on `c`'s own root (the
+    most recently attached), otherwise the child of `c` whose mountpoint comes first on the way
+    to `p` (the shortest; the most recently attached among equals) -/
+def stepFrom (mnts : List KMnt) (c : KMnt) (p : Bytes) : Option KMnt :=
+  let kids := mnts.filter fun k => k.parent == c.id && k.id != c.id
+  match (kids.filter (·.mp == c.mp)).getLast? with
+  | some k => some k
+  | none =>
+    (kids.filter fun k => pathUnder c.mp k.mp && pathUnder k.mp p).foldl (fun best k =>
+      match best with
+      | none => some k
+      | some b => if k.mp.length ≤ b.mp.length then some k else some b) none
+
+/-- the walk, with fuel (every step goes to a child: `mnts.length` steps suffice on a table in
+    which parents are listed before their children, `walk_fuel` in Lemmas/KernelResolve) -/
+def walk (mnts : List KMnt) (p : Bytes) : Nat → KMnt → KMnt
+  | 0, c => c
+  | fuel + 1, c =>
+    match stepFrom mnts c p with
+    | none => c
+    | some k => walk mnts p fuel k
+
+/-- the mount a lookup of `p` ends in -/
+def resolve (mnts : List KMnt) (p : Bytes) : Option KMnt :=
+  match startOf mnts p with
+  | none => none
+  | some r => some (walk mnts p mnts.length r)
+
+/-- `c` hangs (directly or further down) below the mount with id `top`; fuelled climb along
+    the parent ids (`mnts.length` steps suffice when parents are listed before children) -/
+def isBelow (mnts : List KMnt) (top : Nat) : Nat → KMnt → Bool
+  | 0, _ => false
+  | fuel + 1, c =>
+    if c.id == top then false
+    else if c.parent == top then true
+    else match mnts.find? (fun x => x.id == c.parent && x.id != c.id) with
+      | some x => isBelow mnts top fuel x
+      | none => false
+
+/-- the mount whose root a lookup of `mp` ends on: `mp` is a mountpoint and can be reached -/
+def mountedAt (mnts : List KMnt) (mp : Bytes) : Option KMnt :=
+  match resolve mnts mp with
+  | some m => if m.mp == mp then some m else none
+  | none => none
+
 /-- tail of `path` relative to `base` ("" when equal), base contains path -/
 def relTail (base path : Bytes) : Bytes :=
   if base == [47] then (if path == [47] then [] else path) else path.drop base.length
@@ -72,28 +138,31 @@ def KErr.str : KErr → String
   | .einval => "EINVAL" | .enoent => "ENOENT" | .ebusy => "EBUSY" | .enodev => "ENODEV"
 
 def addMount (t : KTable) (m : KMnt) : KTable :=
-  let parent := match findContaining t.mnts m.mp with
+  let parent := match resolve t.mnts m.mp with
     | some p => p.id
     | none => 0
   { t with mnts := t.mnts ++ [{ m with id := t.nextId, parent := parent }], nextId := t.nextId + 1 }
 
-/-- bind `m` (the mount containing `src`) at `tgt` -/
+/-- bind `m` (the mount a lookup of `src` ends in) at `tgt` -/
 def bindOne (t : KTable) (m : KMnt) (src tgt : Bytes) : KTable :=
   addMount t { m with root := joinRoot m.root (relTail m.mp src), mp := tgt }
 
 def kmount (t : KTable) (src tgt fstype : Bytes) (flags : Nat) (data : Bytes) : Except KErr KTable :=
   if hasFlag flags MS_REMOUNT || (flags / 131072) % 16 != 0 then
-    -- remount / propagation change: needs a mountpoint, no structural change
-    match topmostAt t.mnts tgt with
+    -- remount / propagation change: needs a (reachable) mountpoint, no structural change
+    match mountedAt t.mnts tgt with
     | none => .error .einval
     | some _ => .ok t
   else if hasFlag flags MS_BIND then
-    match findContaining t.mnts src with
+    match resolve t.mnts src with
     | none => .error .enodev
     | some m =>
       let t1 := bindOne t m src tgt
       if hasFlag flags MS_REC then
-        let subs := t.mnts.filter (fun c => pathUnder src c.mp && c.mp != src)
+        -- the mount tree below the source mount (mounts that merely lie below the source PATH
+        -- but hang below another, covered mount are not part of it)
+        let subs := t.mnts.filter (fun c => isBelow t.mnts m.id t.mnts.length c &&
+          pathUnder src c.mp && c.mp != src)
         .ok (subs.foldl (fun acc c =>
           addMount acc { c with mp := joinRoot tgt (relTail src c.mp) }) t1)
       else .ok t1
@@ -113,8 +182,10 @@ def kmount (t : KTable) (src tgt fstype : Bytes) (flags : Nat) (data : Bytes) : 
       { id := 0, parent := 0, dev := devOfMinor t.nextMinor, root := [47], mp := tgt,
         fstype := fstype, source := src })
 
+/-- umount(2): the path must resolve to the root of a mount (EINVAL otherwise: nothing mounted
+    there, or what is mounted there is hidden); EBUSY while other mounts hang below it -/
 def kumount (t : KTable) (tgt : Bytes) : Except KErr KTable :=
-  match topmostAt t.mnts tgt with
+  match mountedAt t.mnts tgt with
   | none => .error .einval
   | some m =>
     if t.mnts.any (·.parent == m.id) then .error .ebusy
